@@ -146,6 +146,11 @@ def build(ch):
     ref_form = ch.pick('reference_form', ['sec_offset', 'listx', 'data'])
     cu_version4 = ch.pick('pre_v5_cu_version', [4, 3, 2])
     trailing = ch.pick('trailing_bytes_in_block', [0, 5])
+    # the container's default address size (ELF class / 8) need not be the unit's address_size (4-byte units in an ELF64 file and the reverse). Entries
+    # that carry no literal address - offset pairs and the indexed kinds, whose addresses come from .debug_addr with the UNIT's address size - must decode
+    # identically; entries with literal addresses are read with the container's size by design of the API and are left out of this sub-space.
+    container = ch.pick('container_default_address_size', ['unit', 'other'])
+    mismatch = container == 'other' and era == 'v5' and ekind in ('typical', 'empty', 'indexed')
     dp5 = DP(le, fmt, addr, 5)
     dp4 = DP(le, fmt, addr, cu_version4)
     ex = exprs(exk)
@@ -163,7 +168,7 @@ def build(ch):
                 n = nlists if bi == 0 else 1
                 bodies = []
                 for li in range(n):
-                    ents = v5_entries(ekind if li == 0 else ('typical' if li == 1 else 'start_forms'), loc, ex)
+                    ents = v5_entries(ekind if li == 0 else ('typical' if (li == 1 or mismatch) else 'start_forms'), loc, ex)
                     b, recs = enc_v5_list(ents, dp5, loc, pad if li == 0 else 0)
                     pre = b''
                     vp = None
@@ -275,7 +280,7 @@ def build(ch):
     asm = dg.Assembly(units, le=le)
     s = asm.assemble()
     secs['.debug_info'], secs['.debug_abbrev'], secs['.debug_str'] = s['.debug_info'], s['.debug_abbrev'], s['.debug_str']
-    return secs, model, refs, units, asm, dict(le=le, addr=addr, fmt=fmt, era=era, ex=list(ex), cu4=cu_version4)
+    return secs, model, refs, units, asm, dict(le=le, addr=addr, default_addr=((12 - addr) if mismatch else addr), fmt=fmt, era=era, ex=list(ex), cu4=cu_version4)
 
 
 def norm_loc(lst):
@@ -324,7 +329,7 @@ def run(ch):
     secs, model, refs, units, asm, info = build(ch)
     data = b'|'.join(secs[k] for k in sorted(secs))
     fails = []
-    dw = guarded(dg.make_dwarfinfo, secs, info['le'], info['addr'])
+    dw = guarded(dg.make_dwarfinfo, secs, info['le'], info['default_addr'])
     if isinstance(dw, Raised):
         return Case([('DWARFInfo()', 'constructs', dw)], data, repr(dw))
     from elftools.dwarf.locationlists import LocationParser
@@ -409,7 +414,7 @@ def run(ch):
             fails.append(('iter_range_lists()', [len(x) for x in want_r], g if isinstance(g, Raised) else [len(x) for x in g]))
         # the same enumerations as the FIRST thing asked of a fresh object (no entry parsed, no attribute translated yet)
         for what, want in (('loc', want_l), ('rng', want_r)):
-            dwf = dg.make_dwarfinfo(secs, info['le'], info['addr'])
+            dwf = dg.make_dwarfinfo(secs, info['le'], info['default_addr'])
             g = guarded(lambda: [norm_loc(x) for x in (dwf.location_lists().iter_location_lists() if what == 'loc' else dwf.range_lists().iter_range_lists())])
             if g != want:
                 fails.append(('fresh object: iter_%s_lists()' % ('location' if what == 'loc' else 'range'), [len(x) for x in want], g if isinstance(g, Raised) else [len(x) for x in g]))
@@ -438,7 +443,7 @@ def run(ch):
                     if g != e:
                         fails.append(('rnglists.iter_CU_range_lists_ex(block %d)' % bi, [len(x) for x in e], g if isinstance(g, Raised) else [len(x) for x in g]))
                     # ... also on a fresh object, where translating an entry parses entries of .debug_info for the first time between two yields
-                    dwf = dg.make_dwarfinfo(secs, info['le'], info['addr'])
+                    dwf = dg.make_dwarfinfo(secs, info['le'], info['default_addr'])
                     rlf = dwf.range_lists()
 
                     def fresh_walk():
